@@ -10,7 +10,7 @@ new <cfgTcp>                                   fresh QMI_Context (layer A)
 make <rpc|instr|task> <name> <valid> <ctorF> <relF> <loop|raise|finish>
 remove <n> | removeForeign | get <n> | call <n> | iopen <n> | iclose <n> | tstart <n> | tjoin <n>
 addh <ok|exc|base> | start <tcpF> <udpF> | stop | probe
-qnew | qstart <validName> <cfgTcp> <tcpF> <udpF> <peers: string of 0/1 or -> | qstop | qcontext | q <layer-A op> | qprobe <cfgTcp>
+qnew | qstart <validName> <cfgTcp> <tcpF> <udpF> <peers: string of 0/1 or -> <logF> | qstop | qcontext | q <layer-A op> | qprobe <cfgTcp>
 conc <rpc|instr|task> <name> <ctorF> <relF> <runB>     all outcomes of stop ‖ make from the current layer-A state
 ```
 -/
@@ -27,7 +27,7 @@ def excS : Exc → String
   | .delivery => "QMI_MessageDeliveryException" | .value => "ValueError" | .taskInit => "QMI_TaskInitException"
   | .taskRun => "QMI_TaskRunException" | .unknownRpc => "QMI_UnknownRpcException" | .os => "OSError"
   | .connRefused => "ConnectionRefusedError" | .assertion => "AssertionError"
-  | .noActive => "QMI_NoActiveContextException" | .boom => "Boom" | .base => "BaseBoom"
+  | .noActive => "QMI_NoActiveContextException" | .boom => "Boom" | .base => "BaseBoom" | .logging => "LoggingInitError"
 
 def outS : Out → String | .ok => "ok" | .exc e => "exc:" ++ excS e | .hang => "hang"
 
@@ -164,18 +164,18 @@ def stepLine (w : W) (line : String) : W × String :=
           | _ => "ok"
         ({ w with m := m' }, o)
   | ["qnew"] => ({ w with p := Proc.init }, "ok | " ++ pobs Proc.init)
-  | ["qstart", v, t, tf, uf, peers] =>
-    match pBool v, pBool t, pBool tf, pBool uf, pPeers peers with
-    | some v, some t, some tf, some uf, some peers =>
-      let (p, o) := qstart w.p.clr v t tf uf peers
+  | ["qstart", v, t, tf, uf, peers, lf] =>
+    match pBool v, pBool t, pBool tf, pBool uf, pPeers peers, pBool lf with
+    | some v, some t, some tf, some uf, some peers, some lf =>
+      let (p, o) := qstart w.p.clr v t tf uf peers lf
       ({ w with p }, outS o ++ " | " ++ pobs p)
-    | _, _, _, _, _ => (w, "bad-op")
+    | _, _, _, _, _, _ => (w, "bad-op")
   | ["qstop"] => let (p, o) := qstop w.p.clr; ({ w with p }, outS o ++ " | " ++ pobs p)
   | ["qcontext"] => let (p, o) := pstep w.p .qcontext; ({ w with p }, outS o ++ " | " ++ pobs p)
   | ["qprobe", t] =>
     match pBool t with
     | some t =>
-      let (p1, o) := qstart w.p.clr true t false false []
+      let (p1, o) := qstart w.p.clr true t false false [] false
       match o with
       | .ok => let (p2, o2) := qstop p1; ({ w with p := p2 }, outS o2 ++ " | " ++ pobs p2)
       | _ => ({ w with p := p1 }, outS o ++ " | " ++ pobs p1)
